@@ -161,6 +161,19 @@ prop('C10',
      level_text='Verifier decided equal to the RFC 6962 audit-path recomputation for all symbolic tuples on a grid of (count, length) shapes; prover decided complete on all trees up to 7 leaves.',
      level_note='Trusted: Kani/CBMC/cadical; TOY hash parametricity.')
 
+prop('C23',
+     builds=[dict(crate='vm', filters=['c23_'])],
+     default=dict(mem=16, timeout={'quick': 600, 'thorough': 1800}),
+     min_harnesses={'quick': 14, 'thorough': 17},
+     functions_encoded=['MemoryInstance::{verify, read, write_noownerchecks, grow_stack, grow_heap_by, memcopy, reset, heap_offset}',
+                        'OwnershipRegisters::{verify_ownership, has_ownership_range, has_ownership_stack, has_ownership_heap}', 'ToAddr for Word/usize'],
+     bounds=['arbitrary representation state with stack.len() = 12, heap.len() in {0, 16, 256} (harness constants), hp symbolic, all contents symbolic incl. dirty heap below hp',
+             'addresses, lengths, amounts: unrestricted u64 except: written/copied lengths <= 4..6, newly initialised bytes per step <= 24..40'],
+     assumptions=['Result::{expect,unwrap} replaced by non-formatting models (K2)', 'representation invariant MINV assumed on the pre-state and re-asserted on the post-state'],
+     out_of_claim=['rollback / collect_rollback_data (not yet built)', 'reallocation thresholds above 256 bytes', 'contents of multi-KiB regions'],
+     level_text='One-step bounded model checking of each MemoryInstance method from an arbitrary representation state against the flat-array abstraction (single symbolic probe address = all 2^26 addresses).',
+     level_note='Trusted: Kani/CBMC/cadical.')
+
 # ---------------------------------------------------------------------------------------
 def opts_for(pid, h, tier):
     spec = PROPS[pid]
